@@ -14,7 +14,7 @@ from harness.swctext import Expect
 PID = "C16"
 TRANSLATE_ALGO = ["AlgoNode", "AlgoAssemble", "AlgoResample", "AlgoResampleTree"]   # regenerated on every run from transforms/branch_tree.py (BranchTreeAssembler.__call__), node.py (detach), tree.py (Node.children)
 DRIVER_FILES = ["SwcVerif/Model/AlgoRunAssemble.lean", "SwcVerif/Model/AlgoRunResample.lean", "SwcVerif/Model/AlgoRunResampleTree.lean"]
-LEAN_MODS = ["SwcVerif.Props.C16", "SwcVerif.Props.C16Length", "SwcVerif.Props.C16Pair", "SwcVerif.Props.C16PairLoc", "SwcVerif.Props.C16Asm", "SwcVerif.Props.C16AsmGen", "SwcVerif.Props.C16Gen"]
+LEAN_MODS = ["SwcVerif.Props.C16", "SwcVerif.Props.C16Length", "SwcVerif.Props.C16Pair", "SwcVerif.Props.C16PairLoc", "SwcVerif.Props.C16Asm", "SwcVerif.Props.C16AsmGen", "SwcVerif.Props.C16Gen", "SwcVerif.Props.C16Tree"]
 THEOREMS = [
     "C16Asm.machine_eq_sub", "C16Asm.assemble_eq", "C16Asm.assemble_sorted", "C16Asm.assemble_wf", "C16Asm.assemble_length", "C16Asm.branch_is_chain",
     # the assembler as TRANSLATED from transforms/branch_tree.py on every run (Gen/AlgoAssemble.lean) refines the model
@@ -27,6 +27,8 @@ THEOREMS = [
     "RefineResample.linResample_refines", "RefineResample.isoResample_refines", "RefineResample.convSmooth_refines",
     "RefineResample.interp_eq", "RefineResample.linspace0_eq", "RefineResample.arange0_eq", "RefineResample.cumsumK_cumdist", "RefineResample.convolveSame_ones",
     "C16.generated_lin_eq_model", "C16.generated_iso_eq_model", "C16.generated_smooth_eq_model", "C16.generated_iso_step_le", "C16.generated_smooth_endpoints_count", "C16.generated_lin_last",
+    # the tree-level driver `Resampler.__call__` as TRANSLATED from transforms/tree.py on every run (Gen/AlgoResampleTree.lean) is the composition of the generated pieces
+    "RefineResamTree.for2_loop", "RefineResamTree.for3_loop", "RefineResamTree.resam_tree_eq", "C16Tree.generated_resample_tree_eq_compose", "C16Tree.generated_resample_tree_wf_partial",
     "C16.pairArgmin_spec", "C16.pair_step_inv", "C16.pair_exact", "C16.pair_step_loc", "C16.pair_same_place",
 ]
 TRUSTED = ["hand-written rational models Model/Resample.lean of np.interp / linspace / arange, the two branch resamplers, the moving-average smoother and the "
